@@ -149,3 +149,459 @@ Qed.
 
 Lemma le_state_set_adv st : le_state st (set_adv st).
 Proof. unfold le_state, set_adv; cbn. repeat split; auto. apply incl_refl. Qed.
+
+(* ------------------------------------------------------------------ the invariants *)
+
+Section Asm.
+  Variable es : list entry.
+  Variable cx : ctx.
+  Variable svc : string.
+
+  Notation tn st := (to_nodes svc st None).
+
+  Definition Closed_st (st : cstate) : Prop :=
+    (forall s edges, assoc String.eqb s (s_splitters st) = Some edges -> forall e, In e edges -> key_in st (snd e)) /\
+    (forall t n, assoc target_eqb t (s_resolvers st) = Some n ->
+                 In t (s_retained st) /\ incl (rn_failover n) (s_retained st)) /\
+    Final_memo es cx st.
+
+  (* a splitter node that is not in progress has one edge per split of its entry *)
+  Definition Counted (ip : list string) (st : cstate) : Prop :=
+    forall s edges, assoc String.eqb s (s_splitters st) = Some edges ->
+      In s ip \/ exists l, get_splitter es s = Some l /\ List.length edges = List.length l.
+
+  Definition RootReach (R : list nid) (st : cstate) : Prop :=
+    forall k, key_in st k -> exists r, In r R /\ reachN (tn st) r k.
+
+  Definition I (ip : list string) (R : list nid) (st : cstate) : Prop :=
+    Closed_st st /\ Counted ip st /\ RootReach R st.
+
+  Lemma RootReach_mono R R' st : incl R R' -> RootReach R st -> RootReach R' st.
+  Proof. intros Hi H k Hk. destruct (H k Hk) as (r & Hr & Hp). exists r; auto. Qed.
+
+  Lemma I_mono ip R R' st : incl R R' -> I ip R st -> I ip R' st.
+  Proof. intros Hi (A & B & C). split; [exact A|]. split; [exact B|]. eapply RootReach_mono; eauto. Qed.
+
+  (* states that differ only in protocol / retained targets / the advanced-routing flag *)
+  Definition same_graph (st st' : cstate) : Prop :=
+    s_splitters st' = s_splitters st /\ s_resolvers st' = s_resolvers st /\ incl (s_retained st) (s_retained st').
+
+  Lemma same_graph_refl st : same_graph st st.
+  Proof. split; [reflexivity|]. split; [reflexivity | apply incl_refl]. Qed.
+
+  Lemma same_graph_trans a b c : same_graph a b -> same_graph b c -> same_graph a c.
+  Proof.
+    intros (A1 & A2 & A3) (B1 & B2 & B3). split; [congruence|]. split; [congruence|]. eapply incl_tran; eauto.
+  Qed.
+
+  Lemma same_tables_graph st st' : same_tables st st' -> same_graph st st'.
+  Proof. intros (H1 & H2 & H3 & _). split; [auto|]. split; [auto|]. rewrite H3. apply incl_refl. Qed.
+
+  Lemma same_graph_retain st t : same_graph st (retain st t).
+  Proof. split; [reflexivity|]. split; [reflexivity|]. apply (le_state_retain st t). Qed.
+
+  Lemma same_graph_set_adv st : same_graph st (set_adv st).
+  Proof. split; [reflexivity|]. split; [reflexivity|]. apply incl_refl. Qed.
+
+  Lemma same_graph_le st st' : same_graph st st' -> le_state st st'.
+  Proof. intros (H1 & H2 & H3). unfold le_state. rewrite H1, H2. auto. Qed.
+
+  Lemma same_graph_nodes st st' r : same_graph st st' -> to_nodes svc st' r = to_nodes svc st r.
+  Proof. intros (H1 & H2 & _). unfold to_nodes. rewrite H1, H2. reflexivity. Qed.
+
+  Lemma same_graph_key_in st st' k : same_graph st st' -> (key_in st' k <-> key_in st k).
+  Proof.
+    intros (H1 & H2 & _). destruct k; cbn [key_in]; unfold mem_splitter, mem_resolver; rewrite ?H1, ?H2; tauto.
+  Qed.
+
+  Lemma same_graph_Closed st st' : same_graph st st' -> Closed_st st -> Closed_st st'.
+  Proof.
+    intros Hs (C1 & C2 & C3). pose proof Hs as (H1 & H2 & H3). split; [|split].
+    - intros s edges Ha e He. rewrite H1 in Ha. apply (same_graph_key_in _ _ _ Hs). eapply C1; eauto.
+    - intros t n Ha. rewrite H2 in Ha. destruct (C2 _ _ Ha) as [A B]. split; [auto | eapply incl_tran; eauto].
+    - intros t Ht. apply C3. unfold mem_resolver in *. rewrite <- H2. exact Ht.
+  Qed.
+
+  Lemma same_graph_I ip R st st' : same_graph st st' -> I ip R st -> I ip R st'.
+  Proof.
+    intros Hs (Hcl & Hc & Hr). pose proof Hs as (H1 & H2 & H3). split; [|split].
+    - eapply same_graph_Closed; eauto.
+    - intros s edges Ha. rewrite H1 in Ha. eauto.
+    - intros k Hk. apply (same_graph_key_in _ _ _ Hs) in Hk. destruct (Hr k Hk) as (r & Hi & Hp).
+      exists r; split; auto. rewrite (same_graph_nodes _ _ _ Hs). exact Hp.
+  Qed.
+
+  (* ---- getResolverNode ---- *)
+
+  Lemma resolve_ff_spec st t st' t' :
+    resolve_ff es cx st t = Ok (st', t') ->
+    same_graph st st' /\ (Closed_st st -> In t' (s_retained st') /\ Orbit es cx t t').
+  Proof.
+    unfold resolve_ff. destruct (resolve_loop es cx (redirect_fuel es) st [] t) as [[st1 res]|e] eqn:E; [|discriminate].
+    apply resolve_loop_spec in E as [Ht Hres]. destruct res as [x|x r].
+    - intros H; injection H as <- <-. split; [apply same_tables_graph; auto|].
+      intros (_ & C2 & C3). destruct Hres as [Hm Ho]. split; [|auto].
+      unfold mem_resolver in Hm. destruct (assoc target_eqb x (s_resolvers st)) eqn:Ea; [|discriminate].
+      destruct (C2 _ _ Ea) as [Hi _]. destruct Ht as (_ & _ & -> & _). exact Hi.
+    - destruct (external_check es r x); [discriminate|]. intros H; injection H as <- <-.
+      split; [eapply same_graph_trans; [apply same_tables_graph; eauto | apply same_graph_retain]|].
+      intros _. split; [apply retain_In | tauto].
+  Qed.
+
+  Lemma resolve_failovers_spec : forall l st st' res,
+    resolve_failovers es cx st l = Ok (st', res) ->
+    same_graph st st' /\ (Closed_st st -> incl res (s_retained st')).
+  Proof.
+    induction l as [|ft l IH]; intros st st' res; cbn [resolve_failovers].
+    - intros H; injection H as <- <-. split; [apply same_graph_refl | intros _ ? []].
+    - destruct (resolve_ff es cx st ft) as [[st1 t1]|e] eqn:E1; [|discriminate].
+      destruct (resolve_failovers es cx st1 l) as [[st2 ts]|e] eqn:E2; [|discriminate].
+      intros H; injection H as <- <-.
+      apply resolve_ff_spec in E1 as [G1 P1]. apply IH in E2 as [G2 P2].
+      split; [eapply same_graph_trans; eauto|]. intros HC.
+      destruct (P1 HC) as [Hi _]. specialize (P2 (same_graph_Closed _ _ G1 HC)).
+      intros x [<-|Hx]; [|auto]. destruct G2 as (_ & _ & G2). auto.
+  Qed.
+
+  Lemma key_in_record_resolver st t n k : key_in (record_resolver st t n) k <-> key_in st k \/ k = NResolver t.
+  Proof.
+    destruct k as [x|x|x]; cbn [key_in]; unfold mem_splitter, mem_resolver, record_resolver; cbn [s_splitters s_resolvers].
+    - split; [tauto | intros [[]|H]; discriminate].
+    - split; [tauto | intros [H|H]; [auto | discriminate]].
+    - rewrite (assoc_upsert target_eqb target_eqb_eq). destruct (target_eqb x t) eqn:E.
+      + apply target_eqb_eq in E; subst. split; auto.
+      + apply target_eqb_neq in E. split; [tauto | intros [H|H]; [auto | congruence]].
+  Qed.
+
+  Lemma key_in_record_splitter st s e k : key_in (record_splitter st s e) k <-> key_in st k \/ k = NSplitter s.
+  Proof.
+    destruct k as [x|x|x]; cbn [key_in]; unfold mem_splitter, mem_resolver, record_splitter; cbn [s_splitters s_resolvers].
+    - split; [tauto | intros [[]|H]; discriminate].
+    - rewrite (assoc_upsert String.eqb String.eqb_eq). destruct (x =? s) eqn:E.
+      + apply String.eqb_eq in E; subst. split; auto.
+      + apply String.eqb_neq in E. split; [tauto | intros [H|H]; [auto | congruence]].
+    - split; [tauto | intros [H|H]; [auto | discriminate]].
+  Qed.
+
+  Lemma reach_same_splitters st st' a b :
+    s_splitters st' = s_splitters st -> reachN (tn st) a b -> reachN (tn st') a b.
+  Proof.
+    intros Hs. apply reachN_mono. intros x y He. apply edge_to_nodes in He as (s & edges & -> & Ha & Hb).
+    apply edge_to_nodes. exists s, edges. rewrite Hs. auto.
+  Qed.
+
+  Lemma I_record_resolver ip R st t n :
+    I ip R st -> step cx (resolver_of es (t_svc t)) t = SFinal ->
+    In t (s_retained st) -> incl (rn_failover n) (s_retained st) ->
+    I ip (NResolver t :: R) (record_resolver st t n).
+  Proof.
+    intros ((C1 & C2 & C3) & Hc & Hr) Hf Ht Hn. split; [split; [|split]|split].
+    - intros s edges Ha e He. apply key_in_record_resolver. left. eapply C1; eauto.
+    - intros x m Ha. unfold record_resolver in Ha; cbn [s_resolvers s_retained] in *.
+      rewrite (assoc_upsert target_eqb target_eqb_eq) in Ha. destruct (target_eqb x t) eqn:E.
+      + apply target_eqb_eq in E; subst. injection Ha as <-. auto.
+      + eapply C2; eauto.
+    - intros x Hx. assert (Hk : key_in (record_resolver st t n) (NResolver x)) by exact Hx.
+      apply key_in_record_resolver in Hk as [Hk|Hk]; [apply C3; exact Hk | congruence].
+    - exact Hc.
+    - intros k Hk. apply key_in_record_resolver in Hk as [Hk| ->].
+      + destruct (Hr k Hk) as (r & Hi & Hp). exists r. split; [right; auto|].
+        eapply reach_same_splitters; [|exact Hp]. reflexivity.
+      + exists (NResolver t). split; [left; auto | constructor].
+  Qed.
+
+  Lemma get_resolver_node_spec ip R st t st' t' :
+    get_resolver_node es cx st t = Ok (st', t') -> I ip R st ->
+    le_state st st' /\ I ip (NResolver t' :: R) st' /\ mem_resolver st' t' = true /\
+    Orbit es cx t t' /\ s_splitters st' = s_splitters st.
+  Proof.
+    unfold get_resolver_node.
+    destruct (resolve_loop es cx (redirect_fuel es) st [] t) as [[st1 res]|e] eqn:E; [|discriminate].
+    apply resolve_loop_spec in E as [Ht Hres]. intros H HI.
+    assert (HI1 : I ip R st1) by (eapply same_graph_I; [apply same_tables_graph; eauto | exact HI]).
+    destruct res as [x|x r].
+    - injection H as <- <-. destruct Hres as [Hm Ho]. split; [apply same_tables_le; auto|].
+      split; [eapply I_mono; [|exact HI1]; intros ? ?; right; auto|].
+      split; [rewrite (mem_resolver_tables _ _ _ Ht); exact Hm|].
+      split; [apply Ho; apply HI | apply Ht].
+    - destruct Hres as (Hm & Hr & Ho). destruct (external_check es r x); [discriminate|].
+      set (st2 := retain st1 x) in *.
+      set (st3 := record_resolver st2 x (RNode (is_default_resolver r) [])) in *.
+      assert (HI2 : I ip R st2) by (eapply same_graph_I; [apply same_graph_retain | exact HI1]).
+      assert (Hfin : step cx (resolver_of es (t_svc x)) x = SFinal) by (eapply Orbit_final; eauto).
+      assert (HI3 : I ip (NResolver x :: R) st3).
+      { apply I_record_resolver; auto; [apply retain_In | intros ? []]. }
+      assert (Hm2 : mem_resolver st2 x = false).
+      { unfold st2, mem_resolver, retain; cbn [s_resolvers]. destruct Ht as (_ & -> & _). exact Hm. }
+      assert (L3 : le_state st st3).
+      { eapply le_state_trans; [apply same_tables_le; eauto|].
+        eapply le_state_trans; [apply le_state_retain|]. apply le_state_record_resolver. exact Hm2. }
+      destruct (resolve_failovers es cx st3 (failover_targets cx r x)) as [[st4 fts]|e] eqn:Ef; [|discriminate].
+      apply resolve_failovers_spec in Ef as [G4 P4].
+      assert (HI4 : I ip (NResolver x :: R) st4) by (eapply same_graph_I; eauto).
+      assert (L4 : le_state st st4) by (eapply le_state_trans; [exact L3 | apply same_graph_le; exact G4]).
+      assert (Hm4 : mem_resolver st4 x = true).
+      { destruct G4 as (_ & G4 & _). unfold mem_resolver. rewrite G4. unfold st3, record_resolver; cbn [s_resolvers].
+        rewrite (assoc_upsert_same target_eqb target_eqb_eq). reflexivity. }
+      assert (Hs4 : s_splitters st4 = s_splitters st).
+      { destruct G4 as (-> & _). unfold st3, st2, record_resolver, retain; cbn [s_splitters]. apply Ht. }
+      destruct fts as [|f0 fts].
+      + injection H as <- <-. auto.
+      + injection H as <- <-. split; [|split; [|split; [|split]]]; auto.
+        * destruct L4 as (A1 & A2 & A3). split; [|split]; auto.
+          intros t0 v Ha. unfold record_resolver; cbn [s_resolvers].
+          rewrite (assoc_upsert_other target_eqb target_eqb_eq); [auto|].
+          intros ->. unfold mem_resolver in Hm. rewrite Ha in Hm. discriminate.
+        * eapply I_mono; [|apply I_record_resolver; [exact HI4 | exact Hfin | |]].
+          -- intros k [<-|Hk]; [left; auto | exact Hk].
+          -- destruct G4 as (_ & _ & G4). apply G4. unfold st3, record_resolver; cbn [s_retained]. apply retain_In.
+          -- cbn [rn_failover]. apply P4. apply HI3.
+        * unfold mem_resolver, record_resolver; cbn [s_resolvers].
+          rewrite (assoc_upsert_same target_eqb target_eqb_eq). reflexivity.
+  Qed.
+
+  (* ---- getSplitterNode ---- *)
+
+  Definition rec_ok (ip : list string) (rec : cstate -> string -> cres (cstate * option nid)) : Prop :=
+    forall R st s st' r, I ip R st -> rec st s = Ok (st', r) ->
+      le_state st st' /\ I ip (match r with Some id => id :: R | None => R end) st' /\
+      match r with Some id => key_in st' id | None => True end.
+
+  Lemma do_legs_spec ip rec self : rec_ok ip rec -> forall l R st st' edges,
+    I ip R st -> do_legs es cx rec self st l = Ok (st', edges) ->
+    le_state st st' /\ I ip (map snd edges ++ R) st' /\
+    (forall e, In e edges -> key_in st' (snd e)) /\ List.length edges = List.length l.
+  Proof.
+    intros Hrec. induction l as [|sp l IH]; intros R st st' edges HI; cbn [do_legs].
+    - intros H; injection H as <- <-. split; [apply le_state_refl|]. split; [exact HI|]. split; [intros ? []|reflexivity].
+    - set (s := default_if_empty (sp_svc sp) self).
+      destruct (if negb (s =? self) && (sp_sub sp =? "") then rec st s else Ok (st, None)) as [[st1 r]|e] eqn:E1; [|discriminate].
+      assert (H1 : le_state st st1 /\ I ip (match r with Some id => id :: R | None => R end) st1 /\
+                   match r with Some id => key_in st1 id | None => True end).
+      { destruct (negb (s =? self) && (sp_sub sp =? "")); [eapply Hrec; eauto|].
+        injection E1 as <- <-. split; [apply le_state_refl | auto]. }
+      destruct H1 as (L1 & HI1 & K1). destruct r as [id|].
+      + destruct (do_legs es cx rec self st1 l) as [[st2 edges2]|e] eqn:E2; [|discriminate].
+        intros H; injection H as <- <-.
+        destruct (IH _ _ _ _ HI1 E2) as (L2 & HI2 & K2 & Hlen).
+        split; [eapply le_state_trans; eauto|]. split; [|split].
+        * eapply I_mono; [|exact HI2]. cbn [map snd]. intros k Hk. apply in_app_or in Hk as [Hk|[<-|Hk]].
+          -- right. apply in_or_app; auto.
+          -- left; auto.
+          -- right. apply in_or_app; auto.
+        * intros e [<-|He]; [cbn [snd]; eapply le_state_key_in; eauto | auto].
+        * cbn [List.length]. lia.
+      + destruct (get_resolver_node es cx st1 (new_target cx s (sp_sub sp))) as [[st2 t']|e] eqn:E2; [|discriminate].
+        destruct (get_resolver_node_spec ip _ _ _ _ _ E2 HI1) as (L2 & HI2 & M2 & _).
+        destruct (do_legs es cx rec self st2 l) as [[st3 edges3]|e] eqn:E3; [|discriminate].
+        intros H; injection H as <- <-.
+        destruct (IH _ _ _ _ HI2 E3) as (L3 & HI3 & K3 & Hlen).
+        split; [eapply le_state_trans; [exact L1|]; eapply le_state_trans; eauto|]. split; [|split].
+        * eapply I_mono; [|exact HI3]. cbn [map snd]. intros k Hk. apply in_app_or in Hk as [Hk|[<-|Hk]].
+          -- right. apply in_or_app; auto.
+          -- left; auto.
+          -- right. apply in_or_app; auto.
+        * intros e [<-|He]; [cbn [snd]; eapply (le_state_key_in st2); eauto | auto].
+        * cbn [List.length]. lia.
+  Qed.
+
+  Lemma get_splitter_node_spec : forall fuel ip, rec_ok ip (get_splitter_node es cx fuel).
+  Proof.
+    induction fuel as [|f IH]; intros ip R st s st' r HI; cbn [get_splitter_node].
+    - destruct (mem_splitter st s) eqn:Em.
+      { intros H; injection H as <- <-. split; [apply le_state_refl|].
+        split; [eapply I_mono; [|exact HI]; intros ? ?; right; auto | exact Em]. }
+      destruct (if disable_adv cx then None else get_splitter es s); [discriminate|].
+      intros H; injection H as <- <-. split; [apply le_state_refl | auto].
+    - destruct (mem_splitter st s) eqn:Em.
+      { intros H; injection H as <- <-. split; [apply le_state_refl|].
+        split; [eapply I_mono; [|exact HI]; intros ? ?; right; auto | exact Em]. }
+      destruct (if disable_adv cx then None else get_splitter es s) as [splits|] eqn:Eg;
+        [|intros H; injection H as <- <-; split; [apply le_state_refl | auto]].
+      assert (Eg' : get_splitter es s = Some splits) by (destruct (disable_adv cx); [discriminate | exact Eg]).
+      set (st1 := record_splitter st s []).
+      destruct (do_legs es cx (get_splitter_node es cx f) s st1 splits) as [[st2 edges]|e] eqn:El; [|discriminate].
+      intros H; injection H as <- <-.
+      destruct HI as ((C1 & C2 & C3) & Hc & Hr).
+      assert (L1 : le_state st st1) by (apply le_state_record_splitter; exact Em).
+      assert (HI1 : I (s :: ip) (NSplitter s :: R) st1).
+      { split; [split; [|split]|split].
+        - intros x edges0 Ha e He. unfold st1, record_splitter in Ha; cbn [s_splitters] in Ha.
+          rewrite (assoc_upsert String.eqb String.eqb_eq) in Ha. destruct (x =? s).
+          + injection Ha as <-. destruct He.
+          + apply key_in_record_splitter. left. eapply C1; eauto.
+        - exact C2.
+        - exact C3.
+        - intros x edges0 Ha. unfold st1, record_splitter in Ha; cbn [s_splitters] in Ha.
+          rewrite (assoc_upsert String.eqb String.eqb_eq) in Ha. destruct (x =? s) eqn:E.
+          + apply String.eqb_eq in E; subst. left; left; auto.
+          + destruct (Hc _ _ Ha) as [H|H]; [left; right; auto | right; auto].
+        - intros k Hk. apply key_in_record_splitter in Hk as [Hk| ->].
+          + destruct (Hr k Hk) as (r & Hi & Hp). exists r. split; [right; auto|].
+            eapply reachN_mono; [|exact Hp]. intros x y. apply le_state_edge. exact L1.
+          + exists (NSplitter s). split; [left; auto | constructor]. }
+      destruct (do_legs_spec (s :: ip) _ s (IH (s :: ip)) _ _ _ _ _ HI1 El) as (L2 & ((D1 & D2 & D3) & Dc & Dr) & K2 & Hlen).
+      assert (Hs2 : assoc String.eqb s (s_splitters st2) = Some []).
+      { destruct L2 as (A & _). apply A. unfold st1, record_splitter; cbn [s_splitters].
+        apply (assoc_upsert_same String.eqb String.eqb_eq). }
+      set (st3 := record_splitter st2 s edges).
+      assert (HI3 : I ip (NSplitter s :: R) st3).
+      { split; [split; [|split]|split].
+        - intros x edges0 Ha e He. apply key_in_record_splitter. left.
+          unfold st3, record_splitter in Ha; cbn [s_splitters] in Ha.
+          rewrite (assoc_upsert String.eqb String.eqb_eq) in Ha. destruct (x =? s).
+          + injection Ha as <-. auto.
+          + eapply D1; eauto.
+        - exact D2.
+        - exact D3.
+        - intros x edges0 Ha. unfold st3, record_splitter in Ha; cbn [s_splitters] in Ha.
+          rewrite (assoc_upsert String.eqb String.eqb_eq) in Ha. destruct (x =? s) eqn:E.
+          + apply String.eqb_eq in E; subst. injection Ha as <-. right. exists splits. auto.
+          + destruct (Dc _ _ Ha) as [[H|H]|H]; [|left; auto | right; auto].
+            apply String.eqb_neq in E. congruence.
+        - assert (Hlift : forall a b, reachN (tn st2) a b -> reachN (tn st3) a b).
+          { intros a b. apply reachN_mono. intros x y He. apply edge_to_nodes in He as (s0 & e0 & -> & Ha & Hb).
+            apply edge_to_nodes. exists s0. unfold st3, record_splitter; cbn [s_splitters].
+            rewrite (assoc_upsert String.eqb String.eqb_eq). destruct (s0 =? s) eqn:E.
+            - apply String.eqb_eq in E; subst. rewrite Hs2 in Ha. injection Ha as <-. destruct Hb.
+            - exists e0. auto. }
+          intros k Hk. apply key_in_record_splitter in Hk.
+          assert (Hk2 : key_in st2 k).
+          { destruct Hk as [Hk| ->]; auto. cbn [key_in]. unfold mem_splitter. rewrite Hs2. reflexivity. }
+          destruct (Dr k Hk2) as (r & Hi & Hp). apply Hlift in Hp.
+          apply in_app_or in Hi as [Hi|Hi].
+          + exists (NSplitter s). split; [left; auto|]. eapply reach_step; [|exact Hp].
+            apply edge_to_nodes. exists s, edges. split; auto. split; auto.
+            unfold st3, record_splitter; cbn [s_splitters]. apply (assoc_upsert_same String.eqb String.eqb_eq).
+          + exists r. auto. }
+      split; [|split].
+      + apply (le_state_trans st st3); [|apply (le_state_trans st3 (set_adv st3)); [apply le_state_set_adv | apply le_state_refl]].
+        pose proof (le_state_trans _ _ _ L1 L2) as (A1 & A2 & A3). split; [|split]; auto.
+        intros x v Ha. unfold st3, record_splitter; cbn [s_splitters].
+        rewrite (assoc_upsert_other String.eqb String.eqb_eq); [auto|].
+        intros ->. unfold mem_splitter in Em. rewrite Ha in Em. discriminate.
+      + eapply same_graph_I; [apply same_graph_set_adv | exact HI3].
+      + apply (same_graph_key_in st3); [apply same_graph_set_adv|].
+        apply key_in_record_splitter. right; reflexivity.
+  Qed.
+
+  Lemma get_split_or_resolve_spec ip R st t st' id :
+    I ip R st -> get_split_or_resolve es cx st t = Ok (st', id) ->
+    le_state st st' /\ I ip (id :: R) st' /\ key_in st' id.
+  Proof.
+    intros HI. unfold get_split_or_resolve.
+    destruct (get_splitter_node es cx (splitter_fuel es) st (t_svc t)) as [[st1 r]|e] eqn:E1; [|discriminate].
+    destruct (get_splitter_node_spec _ ip R _ _ _ _ HI E1) as (L1 & HI1 & K1). destruct r as [id1|].
+    - intros H; injection H as <- <-. auto.
+    - destruct (get_resolver_node es cx st1 t) as [[st2 t']|e] eqn:E2; [|discriminate].
+      intros H; injection H as <- <-.
+      destruct (get_resolver_node_spec ip _ _ _ _ _ E2 HI1) as (L2 & HI2 & M2 & _).
+      split; [eapply le_state_trans; eauto | auto].
+  Qed.
+
+  Lemma do_routes_spec ip : forall l R st st' ids,
+    I ip R st -> do_routes es cx svc st l = Ok (st', ids) ->
+    le_state st st' /\ I ip (ids ++ R) st' /\ (forall id, In id ids -> key_in st' id).
+  Proof.
+    induction l as [|r l IH]; intros R st st' ids HI; cbn [do_routes].
+    - intros H; injection H as <- <-. split; [apply le_state_refl|]. split; [exact HI | intros ? []].
+    - set (s := default_if_empty (rt_svc r) svc).
+      destruct (if rt_sub r =? "" then get_split_or_resolve es cx st (new_target cx s "")
+                else match get_resolver_node es cx st (new_target cx s (rt_sub r)) with
+                     | Err e => Err e | Ok (st1, t') => Ok (st1, NResolver t') end) as [[st1 id]|e] eqn:E1; [|discriminate].
+      assert (H1 : le_state st st1 /\ I ip (id :: R) st1 /\ key_in st1 id).
+      { destruct (rt_sub r =? ""); [eapply get_split_or_resolve_spec; eauto|].
+        destruct (get_resolver_node es cx st (new_target cx s (rt_sub r))) as [[st1' t']|e] eqn:E2; [|discriminate].
+        injection E1 as <- <-. destruct (get_resolver_node_spec ip _ _ _ _ _ E2 HI) as (L2 & HI2 & M2 & _). auto. }
+      destruct H1 as (L1 & HI1 & K1).
+      destruct (do_routes es cx svc st1 l) as [[st2 ids2]|e] eqn:E2; [|discriminate].
+      intros H; injection H as <- <-. destruct (IH _ _ _ _ HI1 E2) as (L2 & HI2 & K2).
+      split; [eapply le_state_trans; eauto|]. split.
+      + eapply I_mono; [|exact HI2]. intros k Hk. apply in_app_or in Hk as [Hk|[<-|Hk]].
+        * right. apply in_or_app; auto.
+        * left; auto.
+        * right. apply in_or_app; auto.
+      + intros x [<-|Hx]; [eapply le_state_key_in; eauto | auto].
+  Qed.
+
+  Lemma I_st0 : I [] [] st0.
+  Proof.
+    split; [split; [|split]|split].
+    - intros s edges Ha. discriminate.
+    - intros t n Ha. discriminate.
+    - intros t Ht. discriminate.
+    - intros s edges Ha. discriminate.
+    - intros k Hk. destruct k; cbn in Hk; [destruct Hk | discriminate | discriminate].
+  Qed.
+
+  (* what assembleChain hands to the passes *)
+  Theorem assemble_spec st start router :
+    assemble es cx svc = Ok (st, start, router) ->
+    let ns := to_nodes svc st router in
+    closed ns /\ lookup start ns <> None /\ (forall k, lookup k ns <> None -> reachN ns start k) /\
+    Closed_st st /\ Counted [] st /\
+    match router with
+    | Some l => l <> [] /\ start = NRouter svc
+    | None => key_in st start
+    end.
+  Proof.
+    unfold assemble.
+    assert (Hlift : forall r a b, reachN (tn st) a b -> reachN (to_nodes svc st r) a b).
+    { intros r a b. apply reachN_mono. intros x y (nd & Hl & Hc). exists nd. split; auto.
+      rewrite lookup_to_nodes in Hl |- *. destruct x; [discriminate | exact Hl | exact Hl]. }
+    destruct (if disable_adv cx then None else get_router es svc) as [routes|].
+    - destruct (record_protocol es (set_adv st0) svc) as [st1|e] eqn:Ep; [|discriminate].
+      assert (HI1 : I [] [] st1).
+      { eapply same_graph_I; [apply same_tables_graph; eapply record_protocol_tables; eauto|].
+        eapply same_graph_I; [apply same_graph_set_adv | apply I_st0]. }
+      destruct (do_routes es cx svc st1 routes) as [[st2 ids]|e] eqn:Er; [|discriminate].
+      destruct (do_routes_spec [] _ _ _ _ _ HI1 Er) as (L2 & HI2 & K2).
+      destruct (get_split_or_resolve es cx st2 (new_target cx svc "")) as [[st3 d]|e] eqn:Ed; [|discriminate].
+      destruct (get_split_or_resolve_spec [] _ _ _ _ _ HI2 Ed) as (L3 & ((C1 & C2 & C3) & Hc & Hr) & K3).
+      intros H; injection H as <- <- <-. cbn zeta.
+      assert (Hids : forall id, In id (ids ++ [d]) -> key_in st3 id).
+      { intros id Hi. apply in_app_or in Hi as [Hi|[<-|[]]]; [eapply le_state_key_in; eauto | auto]. }
+      split; [|split; [|split; [|split; [|split]]]].
+      + intros a b (nd & Hl & Hb). rewrite lookup_to_nodes in Hl.
+        assert (Hkb : key_in st3 b).
+        { destruct a as [x|x|x].
+          - destruct (x =? svc); [|discriminate]. injection Hl as <-. apply Hids. exact Hb.
+          - destruct (assoc String.eqb x (s_splitters st3)) as [e0|] eqn:E0; [|discriminate]. injection Hl as <-.
+            cbn [children] in Hb. apply in_map_iff in Hb as (e1 & <- & He1). eapply C1; eauto.
+          - destruct (assoc target_eqb x (s_resolvers st3)); [|discriminate]. injection Hl as <-. destruct Hb. }
+        apply (key_in_lookup svc) in Hkb. rewrite lookup_to_nodes in Hkb |- *. destruct b; [destruct Hkb; reflexivity | exact Hkb | exact Hkb].
+      + rewrite lookup_to_nodes, String.eqb_refl. discriminate.
+      + intros k Hk. rewrite lookup_to_nodes in Hk. destruct k as [x|x|x].
+        * destruct (x =? svc) eqn:E; [|congruence]. apply String.eqb_eq in E; subst. constructor.
+        * assert (Hki : key_in st3 (NSplitter x)).
+          { apply (key_in_lookup svc). rewrite lookup_to_nodes. exact Hk. }
+          destruct (Hr _ Hki) as (r & Hi & Hp). apply (Hlift (Some (ids ++ [d]))) in Hp.
+          eapply reach_step; [|exact Hp]. exists (RouterN (ids ++ [d])). rewrite lookup_to_nodes, String.eqb_refl.
+          split; auto. cbn [children]. destruct Hi as [<-|Hi]; apply in_or_app; [right; left; auto|].
+          rewrite app_nil_r in Hi. left; auto.
+        * assert (Hki : key_in st3 (NResolver x)).
+          { apply (key_in_lookup svc). rewrite lookup_to_nodes. exact Hk. }
+          destruct (Hr _ Hki) as (r & Hi & Hp). apply (Hlift (Some (ids ++ [d]))) in Hp.
+          eapply reach_step; [|exact Hp]. exists (RouterN (ids ++ [d])). rewrite lookup_to_nodes, String.eqb_refl.
+          split; auto. cbn [children]. destruct Hi as [<-|Hi]; apply in_or_app; [right; left; auto|].
+          rewrite app_nil_r in Hi. left; auto.
+      + split; [|split]; auto.
+      + exact Hc.
+      + split; [destruct ids; discriminate | reflexivity].
+    - destruct (get_split_or_resolve es cx st0 (new_target cx svc "")) as [[st1 id]|e] eqn:Ed; [|discriminate].
+      destruct (get_split_or_resolve_spec [] _ _ _ _ _ I_st0 Ed) as (L1 & ((C1 & C2 & C3) & Hc & Hr) & K1).
+      intros H; injection H as <- <- <-. cbn zeta.
+      split; [|split; [|split; [|split; [|split]]]].
+      + intros a b (nd & Hl & Hb). rewrite lookup_to_nodes in Hl.
+        assert (Hkb : key_in st1 b).
+        { destruct a as [x|x|x]; [discriminate| |].
+          - destruct (assoc String.eqb x (s_splitters st1)) as [e0|] eqn:E0; [|discriminate]. injection Hl as <-.
+            cbn [children] in Hb. apply in_map_iff in Hb as (e1 & <- & He1). eapply C1; eauto.
+          - destruct (assoc target_eqb x (s_resolvers st1)); [|discriminate]. injection Hl as <-. destruct Hb. }
+        apply (key_in_lookup svc). exact Hkb.
+      + apply (key_in_lookup svc). exact K1.
+      + intros k Hk. apply (key_in_lookup svc) in Hk. destruct (Hr _ Hk) as (r & [<-|[]] & Hp). exact Hp.
+      + split; [|split]; auto.
+      + exact Hc.
+      + exact K1.
+  Qed.
